@@ -75,6 +75,19 @@ func writeKey(fn *ssa.Function, v ssa.Value, suffix string) string {
 	if !ok {
 		return "?"
 	}
+	if rk == "local" && strings.Contains(joinPath(p, suffix), "[*]") {
+		// a local copy of a by-value struct parameter still shares the
+		// caller's backing arrays: element writes are writes to the parameter
+		if al, ok := r.(*ssa.Alloc); ok {
+			for _, ref := range *al.Referrers() {
+				if st, ok := ref.(*ssa.Store); ok && st.Addr == al {
+					if pk, ok := rootKey(fn, st.Val); ok && pk != "local" {
+						return joinPath(pk, joinPath(p, suffix))
+					}
+				}
+			}
+		}
+	}
 	if rk == "local" {
 		// a local alloc that holds a pointer/slice loaded from elsewhere is
 		// followed one step: pi := &bh.indexes[h] is a value, not an alloc, so
